@@ -92,6 +92,7 @@ type evDef struct {
 }
 
 type chain struct {
+	M      int64 // ConsensusParams.Evidence.MaxBytes of every state of the chain
 	A, D   int64
 	blks   []blkDef
 	built  bool
@@ -112,7 +113,7 @@ type chain struct {
 }
 
 func newChain(A, D int64) *chain {
-	return &chain{A: A, D: D, defs: map[string]*evDef{}, savedState: -1}
+	return &chain{A: A, D: D, M: 1 << 20, defs: map[string]*evDef{}, savedState: -1}
 }
 
 func (c *chain) n() int64 { return int64(len(c.blks)) }
@@ -181,7 +182,7 @@ func (c *chain) params() tmproto.ConsensusParams {
 	p := *types.DefaultConsensusParams()
 	p.Evidence.MaxAgeNumBlocks = c.A
 	p.Evidence.MaxAgeDuration = time.Duration(c.D)
-	p.Evidence.MaxBytes = 1 << 20
+	p.Evidence.MaxBytes = c.M
 	return p
 }
 
